@@ -21,10 +21,15 @@ ParseFaults == {"lex", "syntax"}
 
 File(path, uses, fault) == [path |-> path, uses |-> uses, fault |-> fault]      \* path: index into Paths
 FaultyAt(p, stage) == {j \in 1..Len(p) : IF stage = "parse" THEN p[j].fault \in ParseFaults ELSE p[j].fault = "type"}
-FirstFailingStage(p) == IF FaultyAt(p, "parse") # {} THEN "parse" ELSE IF FaultyAt(p, "check") # {} THEN "check" ELSE "none"
+\* uses = "inherit": the class of the file inherits from the class of the next INHERITING file (cyclically; a single inheriting file
+\* inherits from the class of the next file): two or more inheriting files form an inheritance cycle that closes ACROSS files - an
+\* error of the context stage that no file shows on its own
+Inheriting(p) == {j \in 1..Len(p) : p[j].uses = "inherit"}
+Cycle(p) == \E a, b \in Inheriting(p) : a # b
+FirstFailingStage(p) == IF FaultyAt(p, "parse") # {} THEN "parse" ELSE IF Cycle(p) THEN "context" ELSE IF FaultyAt(p, "check") # {} THEN "check" ELSE "none"
 Expected(p) ==
     LET st == FirstFailingStage(p) IN
     [ ok |-> st = "none",
       tree |-> IF st = "none" THEN {p[j].path : j \in 1..Len(p)} ELSE {},
-      blamed |-> IF st = "none" THEN {} ELSE {p[j].path : j \in FaultyAt(p, st)} ]
+      blamed |-> IF st = "none" THEN {} ELSE IF st = "context" THEN {p[j].path : j \in Inheriting(p)} ELSE {p[j].path : j \in FaultyAt(p, st)} ]
 =====================================================================================
